@@ -1,0 +1,11 @@
+//go:build verif
+
+package poly1305
+
+// Contracts for govc (/verif). Comments only.
+
+//@ func Verify
+//@ trusted
+//@ note Poly1305 tag check (constant-time comparison of the computed tag): not verified; assumed to read its arguments only
+//@ nonnil mac key
+//@ pure
